@@ -711,3 +711,12 @@ def L1p(tier, scheds=('fwd', 'bwd')):
         if sc.links:
             sc.layer = 'L1p'
             yield sc
+
+
+def L6r(tier):
+    """As L6 (links to a dated task outside the WBS), but the outside task got outside by REMOVAL: it is built inside the WBS below
+    a summary, linked, and the summary is then removed. Only inputs in which the outside task is a predecessor (id 50 variant)."""
+    for sc in L6(tier):
+        if sc.ext and sc.ext[0][0] == 50 and len(sc.ext_links) == 1 and sc.ext_links[0][0][0] == 'e' and not sc.links:
+            sc.layer = 'L6r'
+            yield sc
